@@ -487,7 +487,7 @@ def baseVectors (limbs r : Nat) (seed : UInt64) (n : Nat) : Array Nat × Array N
   return (A, S)
 
 /-- the multiset shapes (same table in c04.go) -/
-def shapeVectors (limbs bits r : Nat) (shape : Nat) (A S : Array Nat) : Array Nat × Array Nat :=
+def shapeVectorsBase (limbs bits r : Nat) (shape : Nat) (A S : Array Nat) : Array Nat × Array Nat :=
   let n := A.size
   let a (i : Nat) := A.getD i 0
   let s (i : Nat) := S.getD i 0
@@ -510,6 +510,14 @@ def shapeVectors (limbs bits r : Nat) (shape : Nat) (A S : Array Nat) : Array Na
   | 12 => (A, mk (fun i => s i / 2^(bits - 14) * 2^(bits - 14)))           -- only the top chunk is hit
   | 13 => (mk (fun i => a (i % 2)), mk (fun i => s (i % 3)))               -- tiny pools
   | 14 => (A, mk (fun i => r - (1 + i % 7)))                               -- small negatives r−1 … r−7
+  -- cancellation classes: the exact sum is the point at infinity, the partial sums are not
+  | 15 => (mk (fun i => a (i / 2 * 2)),                                    -- [P, P] with [s, −s] (odd n: last scalar 0)
+           mk (fun i => if i % 2 = 1 then (r - s (i-1)) % r else if i + 1 = n then 0 else s i))
+  | 16 => let h := n / 2                                                   -- second half = −(first half), same scalars
+          (mk (fun i => if i < h then a i else if i < 2 * h then (r - a (i - h)) % r else a i),
+           mk (fun i => if i < h then s i else if i < 2 * h then s (i - h) else 0))
+  | 17 => let ti := powMod (s 0) (r - 2) r                                 -- [P, −P/t]: Fold with t = s₀ sums to infinity
+          (mk (fun i => if i % 2 = 1 then (r - a (i-1) * ti % r) % r else if i + 1 = n then 0 else a i), S)
   | _ =>
     -- parametrised scalar shapes `kind·0x1000 + k` (which windows are hit → chunk statistics)
     let k := shape % 4096
@@ -519,6 +527,27 @@ def shapeVectors (limbs bits r : Nat) (shape : Nat) (A S : Array Nat) : Array Na
     | 3 => (A, mk (fun i => s i / 2^k * 2^k))                              -- low k bits cleared
     | 4 => (A, mk (fun i => s i / 2^k % 65536 * 2^k))                      -- 16-bit band at bit k
     | _ => (A, S)
+
+/-- last index whose point is not the point at infinity -/
+def lastNonzero (r : Nat) (A : Array Nat) : Option Nat :=
+  (List.range A.size).foldl (fun acc i => if A.getD i 0 % r != 0 then some i else acc) none
+
+/-- shapes `0x5000 + b`: shape `b`, then the scalar of the last finite point is replaced by the value that makes the
+exact sum the point at infinity (a cancellation in the very last addition of the reduction, whatever `n` and `c`) -/
+def shapeVectors (limbs bits r : Nat) (shape : Nat) (A S : Array Nat) : Array Nat × Array Nat :=
+  if shape / 4096 = 5 then
+    let (A', S') := shapeVectorsBase limbs bits r (shape % 4096) A S
+    match lastNonzero r A' with
+    | none => (A', S')
+    | some f =>
+      let S0 := S'.setIfInBounds f 0
+      let e := Id.run do
+        let mut e := 0
+        for i in [0:A'.size] do
+          e := (e + A'.getD i 0 * S0.getD i 0) % r
+        return e
+      (A', S'.setIfInBounds f ((r - e) % r * powMod (A'.getD f 0) (r - 2) r % r))
+  else shapeVectorsBase limbs bits r shape A S
 
 structure Line where
   cfg : Cfg
@@ -605,6 +634,65 @@ def pointResult (tower p a b gx gy : String) (e : Nat) : String :=
 
 end towers
 
+/-! ### `MSMX`: explicit window values (digit programs)
+
+`prog` = comma separated items `<body>[#j][@m][*k]`: body = window value `w` or sweep `lo:hi` (inclusive, descending when
+lo > hi), `#j` = only window j carries the value (default: every window of `[wlo, whi)`), `@m` = the point is `[m·a₀]G`
+(m signed; default: the pairwise distinct point `[a₀ + i·d]G`, i = position), `^k` = the point is `−[a₀ + (i−k)·d]G` (the
+opposite of the point k positions earlier), `*k` = the item k times. `tail` = 1 repeats the program cyclically up to n
+entries, 0 leaves the other scalars zero. Entries with value 0 and the entries of the tail have the point G, scalar 0. -/
+
+structure XEntry where
+  w : Nat
+  win : Option Nat
+  m : Option Int
+  back : Option Nat
+deriving Repr
+
+def splitSuffix (s : String) (ch : Char) : String × Option String :=
+  match s.splitOn (String.singleton ch) with
+  | [b, x] => (b, some x)
+  | _ => (s, none)
+
+def parseItem (it : String) : List XEntry :=
+  let (it, k) := splitSuffix it '*'
+  let (it, bk) := splitSuffix it '^'
+  let (it, m) := splitSuffix it '@'
+  let (body, j) := splitSuffix it '#'
+  let ws : List Nat := match body.splitOn ":" with
+    | [lo, hi] =>
+      let lo := parseHexD lo
+      let hi := parseHexD hi
+      if lo ≤ hi then List.range' lo (hi + 1 - lo) else (List.range' hi (lo + 1 - hi)).reverse
+    | _ => [parseHexD body]
+  let es := ws.map (fun w => ({ w, win := j.map parseHexD, m := m.map parseInt, back := bk.map parseHexD } : XEntry))
+  (List.replicate ((k.map parseHexD).getD 1) es).flatten
+
+def parseProg (s : String) : Array XEntry :=
+  if s == "-" then #[] else ((s.splitOn ",").flatMap parseItem).toArray
+
+/-- Σ_{k ∈ [lo,hi)} 2^(c·k) -/
+def repUnit (c lo hi : Nat) : Nat := (List.range' lo (hi - lo)).foldl (fun acc k => acc + 2^(c*k)) 0
+
+def xVectors (r a0 d n c tail wlo whi : Nat) (E : Array XEntry) : Array Nat × Array Nat :=
+  let L := E.size
+  let rep := repUnit c wlo whi
+  let ent (i : Nat) : Option XEntry := if L = 0 then none else if tail = 1 then E[i % L]? else E[i]?
+  let A := (Array.range n).map (fun i => match ent i with
+    | none => 1 % r
+    | some e =>
+      if e.w = 0 then 1 % r else
+      match e.m, e.back with
+      | some m, _ => ((m * Int.ofNat a0) % Int.ofNat r).toNat
+      | none, some k => (r - (a0 + (i - k) * d) % r) % r
+      | none, none => (a0 + i * d) % r)
+  let S := (Array.range n).map (fun i => match ent i with
+    | none => 0
+    | some e => match e.win with
+      | none => e.w * rep % r
+      | some j => e.w * 2^(c*j) % r)
+  (A, S)
+
 def showRanges (l : List (Nat × Nat)) : String :=
   if l.isEmpty then "-" else " ".intercalate (l.map (fun se => toHex se.1 ++ "," ++ toHex se.2))
 
@@ -624,6 +712,23 @@ def handle (args : List String) : String :=
       let (A0, S0) := baseVectors cfg.limbs r (UInt64.ofNat (parseHexD seed)) n
       let (A, S) := shapeVectors cfg.limbs cfg.bits r (parseHexD shape) A0 S0
       let L : Line := { cfg, r, api, A, S, nbTasks := parseInt nbTasks, nScalars := parseHexD nScalars }
+      match expectedExp L with
+      | .error e => e
+      | .ok e =>
+        match modelCheck L (parseHexD numCPU) e with
+        | [] => pointResult tower p a b gx gy e
+        | bad => "model-mismatch:" ++ ",".intercalate bad
+  | ["MSMX", curve, _grp, api, tower, p, a, b, r, gx, gy, seed, n, c, nbTasks, _gmp, numCPU, tail, wlo, whi, prog] =>
+    match curveCfgs.lookup curve with
+    | none => "bad-op"
+    | some cfg =>
+      let r := parseHexD r
+      let n := parseHexD n
+      if r < 2 || !(api == "aff" || api == "jac") then "bad-op" else
+      let (st, a0) := nextFr cfg.limbs r (UInt64.ofNat (parseHexD seed))
+      let (_, d) := nextFr cfg.limbs r st
+      let (A, S) := xVectors r a0 d n (parseHexD c) (parseHexD tail) (parseHexD wlo) (parseHexD whi) (parseProg prog)
+      let L : Line := { cfg, r, api, A, S, nbTasks := parseInt nbTasks, nScalars := n }
       match expectedExp L with
       | .error e => e
       | .ok e =>
